@@ -9,6 +9,7 @@
   with `Chain.getChunk`/`hasChunk` including every member's call log; FailoverGroup and SwapStore
   are stressed concurrently.
 -/
+import Desync.Generated.Facts
 import Desync.Proofs.ChainProofs
 import Desync.Proofs.SwapProofs
 
@@ -108,5 +109,13 @@ theorem swap_progress (k : Nat) (s : Swap.St) (hr : Swap.Reachable (Swap.St.init
     (∀ (t : Nat) e, s.callers[t]? = some (Swap.PC.inReq e) → ∃ s', Swap.step s (.leave t) = some s') ∧
     ((∀ (t : Nat) e, s.callers[t]? ≠ some (Swap.PC.inReq e)) → ∃ s', Swap.step s .swap = some s') :=
   Swap.progress k s hr
+
+/-- **regenerated obligation**: the local store a cache is built on writes a chunk unconditionally — `StoreChunk`
+    does not look at what is already there — so that `cache_repair` (an invalid cached chunk is replaced from
+    upstream) holds for the real cache member and not only for the model's -/
+theorem gen_cache_member_overwrites :
+    Gen.localStoreChunkShape.contains "Stat" = false ∧ Gen.localStoreChunkShape.contains "HasChunk" = false ∧
+    Gen.localStoreChunkShape.contains "Rename" = true ∧ Gen.site_shape_local_StoreChunk_found = true := by
+  decide
 
 end Desync.C11
